@@ -15,7 +15,7 @@ use vpmodel::spec::{mono, ChainSpec};
 pub const DEF: PropDef = PropDef {
     id: "C10",
     level: "fault_enumeration",
-    rule: "fault plans applied to generated chains stored in 2..4 blk files, for the three file-producing callbacks. Enumerated part (fixed generated 6-block chain): every height x input fault {blk file removed, emptied, truncated at 7 positions of the block incl. inside the length prefix and at the last byte, index offset past EOF}; 27 RLIMIT_FSIZE limits from 0 to above the largest output file (SIGXFSZ ignored, so writes fail with EFBIG) on an index pre-compacted to table files; ENOSPC injected (strace) at the k-th write to any dump file for k=1..8 and at the first and second write to each single dump file; SIGKILL injected on entry of the k-th openat/write/rename/close touching a dump file for k=1..6 each. One enumerated chain produces > 4 MB per file so that writes fail mid-run, before the final flush. Random part: random chains, ranges and fault plans, a quarter of them into a dump folder that already holds longer stale *.tmp files of an earlier failed run. Oracles: (a) exit 0 => every expected final-named file present and byte-identical to the undisturbed run, no *.tmp; (b) input fault hitting a processed height h => exit != 0, 'Error at height h', no final-named file; (c) output fault that fires => exit != 0 and no final-named file; (d) kill at any point => every final-named file that exists is byte-identical to the undisturbed output. Non-trivial = the fault actually fired in the read/write path of the run (not at start-up); distinct by (callback, fault kind, position).",
+    rule: "fault plans applied to generated chains stored in 2..4 blk files, for the three file-producing callbacks. Enumerated part (fixed generated 6-block chain): every height x input fault {blk file removed, emptied, truncated at 7 positions of the block incl. inside the length prefix and at the last byte (thorough tier: at every byte of one block), index offset past EOF}; 27 RLIMIT_FSIZE limits from 0 to above the largest output file (SIGXFSZ ignored, so writes fail with EFBIG) on an index pre-compacted to table files; ENOSPC injected (strace) at the k-th write to any dump file for k=1..8 and at the first and second write to each single dump file; SIGKILL injected on entry of the k-th openat/write/rename/close touching a dump file for k=1..6 each. One enumerated chain produces > 4 MB per file so that writes fail mid-run, before the final flush. Random part: random chains, ranges and fault plans, a quarter of them into a dump folder that already holds longer stale *.tmp files of an earlier failed run. Oracles: (a) exit 0 => every expected final-named file present and byte-identical to the undisturbed run, no *.tmp; (b) input fault hitting a processed height h => exit != 0, 'Error at height h', no final-named file; (c) output fault that fires => exit != 0 and no final-named file; (d) kill at any point => every final-named file that exists is byte-identical to the undisturbed output. Non-trivial = the fault actually fired in the read/write path of the run (not at start-up); distinct by (callback, fault kind, position).",
     assumptions: &["crash points are syscall-granular (the directory can only change at syscalls); power loss / fsync ordering is outside the statement", "physical order inside a file equals height order, so the first height lost by a truncation is the truncated block's"],
     run,
     replay,
@@ -384,6 +384,15 @@ fn enumerated(seed: u64, tier: Tier) -> Vec<Case> {
             for k in 1..=6 {
                 v.push(mk(Fault::Kill { syscall: sc.into(), k }));
             }
+        }
+    }
+    if tier == Tier::Thorough {
+        // every byte of one block (incl. its 8-byte prefix) as truncation point, csvdump
+        let built = chain.build();
+        let total = built.blocks[2].1.ser().len() as u64 + 8;
+        for k in 0..total {
+            let at = (((k << 32) + total - 1) / total).min(u32::MAX as u64) as u32;
+            v.push(Case { chain: chain.clone(), nfiles: 3, cb: Callback::CsvDump, start: None, end: None, fault: Fault::Truncated { h: hsel(2), at }, stale_tmp: false });
         }
     }
     // one chain whose outputs exceed the 4 MB buffers: writes fail mid-run, before the final flush
